@@ -1,1 +1,343 @@
 //! End-to-end driver: runs the freshly built `scrut` binary in a sealed environment.
+//!
+//! A `Sandbox` is a private directory `<worker scratch>/<name>/` with
+//!   docs/   generated test documents (the cwd of scrut unless stated otherwise)
+//!   tmp/    the TMPDIR of the scrut process (scrut creates its work directories here)
+//!   log     marker log: test commands append their unique ids here (outside the work directory)
+//!   trace   JSONL written by the cfg-guarded hooks (SCRUT_VERIF_TRACE)
+//!   payload/ files that test commands `cat`
+
+#![allow(dead_code)]
+
+use std::io::Read;
+use std::os::unix::process::CommandExt;
+use std::os::unix::process::ExitStatusExt;
+use std::path::Path;
+use std::path::PathBuf;
+use std::process::Command;
+use std::process::Stdio;
+use std::time::Duration;
+use std::time::Instant;
+
+use serde_json::Value;
+
+use crate::core::Env;
+
+pub struct Sandbox {
+    pub root: PathBuf,
+    pub docs: PathBuf,
+    pub tmp: PathBuf,
+    pub log: PathBuf,
+    pub trace: PathBuf,
+    pub payload: PathBuf,
+}
+
+impl Sandbox {
+    pub fn new(env: &Env, name: &str) -> Sandbox {
+        let root = env.scratch.join(name);
+        let _ = std::fs::remove_dir_all(&root);
+        let sb = Sandbox {
+            docs: root.join("docs"),
+            tmp: root.join("tmp"),
+            log: root.join("log"),
+            trace: root.join("trace"),
+            payload: root.join("payload"),
+            root,
+        };
+        for d in [&sb.docs, &sb.tmp, &sb.payload] {
+            let _ = std::fs::create_dir_all(d);
+        }
+        sb
+    }
+
+    /// write a file below docs/ (sub directories are created)
+    pub fn write_doc(&self, rel: &str, content: &[u8]) -> PathBuf {
+        let p = self.docs.join(rel);
+        if let Some(parent) = p.parent() {
+            let _ = std::fs::create_dir_all(parent);
+        }
+        std::fs::write(&p, content).expect("write document");
+        p
+    }
+
+    pub fn write_payload(&self, name: &str, content: &[u8]) -> PathBuf {
+        let p = self.payload.join(name);
+        std::fs::write(&p, content).expect("write payload");
+        p
+    }
+
+    /// ids appended by the test commands, in order
+    pub fn markers(&self) -> Vec<String> {
+        std::fs::read_to_string(&self.log)
+            .unwrap_or_default()
+            .lines()
+            .map(|l| l.trim().to_string())
+            .filter(|l| !l.is_empty())
+            .collect()
+    }
+
+    /// the shell snippet that appends `id` to the marker log
+    pub fn mark(&self, id: &str) -> String {
+        format!("echo {id} >> {}", self.log.display())
+    }
+
+    /// names directly below TMPDIR
+    pub fn tmp_listing(&self) -> Vec<String> {
+        let mut v: Vec<String> = std::fs::read_dir(&self.tmp)
+            .map(|d| d.filter_map(|e| e.ok()).map(|e| e.file_name().to_string_lossy().to_string()).collect())
+            .unwrap_or_default();
+        v.sort();
+        v
+    }
+
+    /// everything below TMPDIR, relative paths
+    pub fn tmp_tree(&self) -> Vec<String> {
+        let mut out = vec![];
+        fn walk(base: &Path, dir: &Path, out: &mut Vec<String>) {
+            if let Ok(rd) = std::fs::read_dir(dir) {
+                for e in rd.filter_map(|e| e.ok()) {
+                    let p = e.path();
+                    out.push(p.strip_prefix(base).unwrap_or(&p).display().to_string());
+                    if p.is_dir() && !p.is_symlink() {
+                        walk(base, &p, out);
+                    }
+                }
+            }
+        }
+        walk(&self.tmp, &self.tmp, &mut out);
+        out.sort();
+        out
+    }
+
+    pub fn trace_events(&self) -> Vec<Value> {
+        std::fs::read_to_string(&self.trace)
+            .unwrap_or_default()
+            .lines()
+            .filter_map(|l| serde_json::from_str::<Value>(l).ok())
+            .collect()
+    }
+
+    pub fn cleanup(&self) {
+        // make everything removable (tests may chmod)
+        let _ = Command::new("chmod").arg("-R").arg("u+rwx").arg(&self.root).output();
+        let _ = std::fs::remove_dir_all(&self.root);
+    }
+}
+
+impl Drop for Sandbox {
+    fn drop(&mut self) {
+        self.cleanup();
+    }
+}
+
+#[derive(Debug, Clone)]
+pub struct Run {
+    /// exit code (None when killed by a signal or by the watchdog)
+    pub code: Option<i32>,
+    pub signal: Option<i32>,
+    pub stdout: Vec<u8>,
+    pub stderr: Vec<u8>,
+    pub wall: Duration,
+    pub watchdog_fired: bool,
+    /// process group of the scrut process (children the tests left behind are still in it)
+    pub pgid: i32,
+}
+
+impl Run {
+    /// kill whatever is left of the process group (sleepers of timed-out tests, detached children)
+    pub fn kill_group(&self) {
+        if self.pgid > 1 {
+            unsafe {
+                libc::kill(-self.pgid, libc::SIGKILL);
+            }
+        }
+    }
+
+    pub fn stdout_str(&self) -> String {
+        String::from_utf8_lossy(&self.stdout).to_string()
+    }
+    pub fn stderr_str(&self) -> String {
+        String::from_utf8_lossy(&self.stderr).to_string()
+    }
+    /// parsed `-r json` output: the array of outcomes
+    pub fn json(&self) -> Result<Vec<Value>, String> {
+        let v: Value = serde_json::from_slice(&self.stdout)
+            .map_err(|e| format!("stdout is not JSON ({e}): {}", String::from_utf8_lossy(&self.stdout).chars().take(300).collect::<String>()))?;
+        v.as_array().cloned().ok_or_else(|| "JSON is not an array".to_string())
+    }
+}
+
+pub struct ScrutCmd<'a> {
+    pub args: Vec<String>,
+    pub cwd: PathBuf,
+    pub watchdog: Duration,
+    pub extra_env: Vec<(String, String)>,
+    pub stdin: Option<Vec<u8>>,
+    pub sb: &'a Sandbox,
+    pub wrapper: Vec<String>,
+}
+
+impl<'a> ScrutCmd<'a> {
+    pub fn new(sb: &'a Sandbox, args: &[&str]) -> Self {
+        ScrutCmd {
+            args: args.iter().map(|s| s.to_string()).collect(),
+            cwd: sb.docs.clone(),
+            watchdog: Duration::from_secs(60),
+            extra_env: vec![],
+            stdin: None,
+            sb,
+            wrapper: vec![],
+        }
+    }
+    pub fn arg(mut self, a: impl Into<String>) -> Self {
+        self.args.push(a.into());
+        self
+    }
+    pub fn watchdog(mut self, d: Duration) -> Self {
+        self.watchdog = d;
+        self
+    }
+    pub fn env(mut self, k: &str, v: &str) -> Self {
+        self.extra_env.push((k.into(), v.into()));
+        self
+    }
+    pub fn cwd(mut self, p: &Path) -> Self {
+        self.cwd = p.to_path_buf();
+        self
+    }
+    /// prefix command (e.g. valgrind ...)
+    pub fn wrapper(mut self, w: &[&str]) -> Self {
+        self.wrapper = w.iter().map(|s| s.to_string()).collect();
+        self
+    }
+
+    pub fn run(self, env: &Env) -> Run {
+        let (prog, pre): (PathBuf, Vec<String>) = if self.wrapper.is_empty() {
+            (env.scrut_bin.clone(), vec![])
+        } else {
+            let mut pre = self.wrapper[1..].to_vec();
+            pre.push(env.scrut_bin.display().to_string());
+            (PathBuf::from(&self.wrapper[0]), pre)
+        };
+        let mut cmd = Command::new(prog);
+        cmd.args(pre)
+            .args(&self.args)
+            .current_dir(&self.cwd)
+            .env_clear()
+            .env("PATH", "/usr/local/sbin:/usr/local/bin:/usr/sbin:/usr/bin:/sbin:/bin")
+            .env("HOME", &self.sb.root)
+            .env("TMPDIR", &self.sb.tmp)
+            .env("SCRUT_VERIF_TRACE", &self.sb.trace)
+            .env("VH_LOG", &self.sb.log)
+            .env("NO_COLOR", "1")
+            .stdin(if self.stdin.is_some() { Stdio::piped() } else { Stdio::null() })
+            .stdout(Stdio::piped())
+            .stderr(Stdio::piped());
+        for (k, v) in &self.extra_env {
+            cmd.env(k, v);
+        }
+        // own process group: the watchdog can kill scrut and everything it started
+        unsafe {
+            cmd.pre_exec(|| {
+                libc::setpgid(0, 0);
+                Ok(())
+            });
+        }
+        let start = Instant::now();
+        let mut child = match cmd.spawn() {
+            Ok(c) => c,
+            Err(e) => {
+                return Run {
+                    code: None,
+                    signal: None,
+                    stdout: vec![],
+                    stderr: format!("spawn failed: {e}").into_bytes(),
+                    wall: Duration::ZERO,
+                    watchdog_fired: true,
+                    pgid: 0,
+                }
+            }
+        };
+        if let Some(data) = self.stdin {
+            if let Some(mut si) = child.stdin.take() {
+                let _ = std::io::Write::write_all(&mut si, &data);
+            }
+        }
+        let pid = child.id() as i32;
+        let mut so = child.stdout.take().unwrap();
+        let mut se = child.stderr.take().unwrap();
+        let t1 = std::thread::spawn(move || {
+            let mut b = vec![];
+            let _ = so.read_to_end(&mut b);
+            b
+        });
+        let t2 = std::thread::spawn(move || {
+            let mut b = vec![];
+            let _ = se.read_to_end(&mut b);
+            b
+        });
+        let mut fired = false;
+        let status = loop {
+            match child.try_wait() {
+                Ok(Some(s)) => break Some(s),
+                Ok(None) => {}
+                Err(_) => break None,
+            }
+            if start.elapsed() > self.watchdog {
+                fired = true;
+                unsafe {
+                    libc::kill(-pid, libc::SIGKILL);
+                }
+                break child.wait().ok();
+            }
+            std::thread::sleep(Duration::from_millis(5));
+        };
+        let wall = start.elapsed();
+        // a surviving grandchild may hold the pipes open: do not wait for EOF forever
+        let stdout = join_with_deadline(t1, pid);
+        let stderr = join_with_deadline(t2, pid);
+        Run {
+            code: status.and_then(|s| s.code()),
+            signal: status.and_then(|s| s.signal()),
+            stdout,
+            stderr,
+            wall,
+            watchdog_fired: fired,
+            pgid: pid,
+        }
+    }
+}
+
+fn join_with_deadline(t: std::thread::JoinHandle<Vec<u8>>, pgid: i32) -> Vec<u8> {
+    let start = Instant::now();
+    while !t.is_finished() {
+        if start.elapsed() > Duration::from_secs(15) {
+            // pipe kept open by a descendant; kill the group to get EOF
+            unsafe {
+                libc::kill(-pgid, libc::SIGKILL);
+            }
+        }
+        if start.elapsed() > Duration::from_secs(20) {
+            return vec![];
+        }
+        std::thread::sleep(Duration::from_millis(5));
+    }
+    t.join().unwrap_or_default()
+}
+
+/// per-test result kind from the JSON report: "success" or the error kind
+pub fn result_kind(outcome: &Value) -> String {
+    let r = &outcome["result"];
+    if let Some(k) = r["kind"].as_str() {
+        return k.to_string();
+    }
+    if let Some(s) = r.as_str() {
+        return s.to_string();
+    }
+    "?".to_string()
+}
+
+/// shell-quote for bash (single quotes)
+pub fn sh_quote(s: &str) -> String {
+    format!("'{}'", s.replace('\'', "'\\''"))
+}
